@@ -967,3 +967,186 @@ theorem wf_map_perm {es es' : List (Key × Value)} {ck ok ck' ok' : List Key} (h
   simp only [WF] at h ⊢
   exact ⟨wfEs_perm hp h.1, (List.Perm.nodup_iff (List.Perm.map Prod.fst hp)).1 h.2⟩
 
+/-! ## `Mapping::interpolate` / `Mapping::flattened`, entry by entry -/
+
+/-- A successful `Mapping::interpolate` of well-formed entries (distinct marker-free keys, none
+of them in the accumulator): accumulator entries are untouched and every entry `(k, v)` ends up
+as `flattened(interpolate(v))`, each computed from the *incoming* state with `k` pushed. -/
+theorem interpEs_entries {root : Mapping} {ck ok : List Key} {st : RState} :
+    ∀ (es : List (Key × Value)) (n : Nat) (acc m : Mapping),
+    WFEs es → (keys acc.es ++ keys es).Nodup → interpEs n root es ck ok st acc = .ok m →
+    (∀ k, k ∈ keys acc.es → lookup k m.es = lookup k acc.es) ∧
+    ∀ k v, (k, v) ∈ es → ∃ x s y, interp n root v (st.pushMappingKey k) = .ok (x, s) ∧
+      flat x s = .ok y ∧ lookup k m.es = some y := by
+  intro es
+  induction es with
+  | nil =>
+    intro n acc m _ _ h
+    cases n with
+    | zero => simp [interpEs] at h
+    | succ n =>
+      simp only [interpEs_nil, Except.ok.injEq] at h
+      subst h
+      exact ⟨fun _ _ => rfl, fun _ _ hm => by simp at hm⟩
+  | cons e rest ih =>
+    obtain ⟨k0, v0⟩ := e
+    intro n acc m hes hnd h
+    cases n with
+    | zero => simp [interpEs] at h
+    | succ n =>
+      rw [interpEs_cons] at h
+      simp only [WFEs] at hes
+      rcases h1 : interp n root v0 (st.pushMappingKey k0) with e | ⟨v1, s1⟩
+      · simp [h1] at h
+      simp only [h1] at h
+      cases h2 : flat v1 s1 with
+      | error e => simp [h2] at h
+      | ok v2 =>
+        simp only [h2] at h
+        have hstep := nodup_keys_step (by simpa [keys] using hnd : (keys acc.es ++ k0 :: keys rest).Nodup)
+        rw [insertImpl_fresh_eq acc v2 _ _ hes.1 hstep.1] at h
+        simp only at h
+        obtain ⟨A, B⟩ := ih n _ m hes.2.2 (by simpa [keys] using hstep.2) h
+        simp only at A
+        refine ⟨?_, ?_⟩
+        · intro k hk
+          rw [A k (by simp [keys] at hk ⊢; exact Or.inl hk), lookup_append_mem _ hk]
+        · intro k v hm
+          rcases List.mem_cons.1 hm with heq | hmem
+          · simp only [Prod.mk.injEq] at heq
+            obtain ⟨rfl, rfl⟩ := heq
+            refine ⟨v1, s1, v2, interp_fuel_mono _ _ _ h1 (by simp), h2, ?_⟩
+            rw [A k (by simp [keys]), lookup_append_fresh _ hstep.1]
+          · obtain ⟨x, s, y, hx, hy, hl⟩ := B k v hmem
+            exact ⟨x, s, y, interp_fuel_mono _ _ _ hx (by simp), hy, hl⟩
+
+/-- The same for `Mapping::flattened`. -/
+theorem flatEs_entries {ck ok : List Key} {st : RState} :
+    ∀ (es : List (Key × Value)) (acc m : Mapping),
+    WFEs es → (keys acc.es ++ keys es).Nodup → flatEs es ck ok st acc = .ok m →
+    (∀ k, k ∈ keys acc.es → lookup k m.es = lookup k acc.es) ∧
+    ∀ k v, (k, v) ∈ es → ∃ y, flat v st = .ok y ∧ lookup k m.es = some y := by
+  intro es
+  induction es with
+  | nil =>
+    intro acc m _ _ h
+    simp only [flatEs, Except.ok.injEq] at h
+    subst h
+    exact ⟨fun _ _ => rfl, fun _ _ hm => by simp at hm⟩
+  | cons e rest ih =>
+    obtain ⟨k0, v0⟩ := e
+    intro acc m hes hnd h
+    simp only [flatEs] at h
+    simp only [WFEs] at hes
+    cases h2 : flat v0 st with
+    | error e => simp [h2] at h
+    | ok v2 =>
+      simp only [h2] at h
+      have hstep := nodup_keys_step (by simpa [keys] using hnd : (keys acc.es ++ k0 :: keys rest).Nodup)
+      rw [insertImpl_fresh_eq acc v2 _ _ hes.1 hstep.1] at h
+      simp only at h
+      obtain ⟨A, B⟩ := ih _ m hes.2.2 (by simpa [keys] using hstep.2) h
+      simp only at A
+      refine ⟨?_, ?_⟩
+      · intro k hk
+        rw [A k (by simp [keys] at hk ⊢; exact Or.inl hk), lookup_append_mem _ hk]
+      · intro k v hm
+        rcases List.mem_cons.1 hm with heq | hmem
+        · simp only [Prod.mk.injEq] at heq
+          obtain ⟨rfl, rfl⟩ := heq
+          exact ⟨v2, h2, by rw [A k (by simp [keys]), lookup_append_fresh _ hstep.1]⟩
+        · exact B k v hmem
+
+/-- Conversely, entries that interpolate and flatten one by one (each from the incoming state)
+make the whole mapping interpolate, in *any* order of the entries; `tgt` records the results. -/
+theorem interpEs_build {root : Mapping} {ck ok : List Key} {st : RState}
+    {tgt : List (Key × Value)} (n : Nat) :
+    ∀ (es : List (Key × Value)) (acc : Mapping),
+    WFEs es → (keys acc.es ++ keys es).Nodup →
+    (∀ k v, (k, v) ∈ es → ∃ x s y, interp n root v (st.pushMappingKey k) = .ok (x, s) ∧
+      flat x s = .ok y ∧ lookup k tgt = some y) →
+    ∃ m, interpEs (n + es.length + 1) root es ck ok st acc = .ok m ∧
+      (∀ k, k ∈ keys acc.es → lookup k m.es = lookup k acc.es) ∧
+      (∀ k, k ∈ keys es → lookup k m.es = lookup k tgt) := by
+  intro es
+  induction es with
+  | nil =>
+    intro acc _ _ _
+    exact ⟨acc, rfl, fun _ _ => rfl, fun _ hk => by simp [keys] at hk⟩
+  | cons e rest ih =>
+    obtain ⟨k0, v0⟩ := e
+    intro acc hes hnd hall
+    simp only [WFEs] at hes
+    obtain ⟨v1, s1, v2, h1, h2, h3⟩ := hall k0 v0 (by simp)
+    have hstep := nodup_keys_step (by simpa [keys] using hnd : (keys acc.es ++ k0 :: keys rest).Nodup)
+    obtain ⟨m, hm, A, B⟩ := ih ⟨acc.es ++ [(k0, v2)],
+        if decide (k0 ∈ ck) then setInsert k0 acc.ck else acc.ck,
+        if decide (k0 ∈ ok) then setInsert k0 acc.ok else acc.ok⟩
+      hes.2.2 (by simpa [keys] using hstep.2)
+      (fun k v hkv => hall k v (List.mem_cons_of_mem _ hkv))
+    simp only at A
+    refine ⟨m, ?_, ?_, ?_⟩
+    · have e : n + ((k0, v0) :: rest).length + 1 = (n + rest.length + 1) + 1 := by
+        simp only [List.length_cons]; omega
+      rw [e, interpEs_cons]
+      have h1' := interp_fuel_mono_le (m := n + rest.length + 1) (by omega) _ _ _ h1 (by simp)
+      simp only [h1', h2]
+      rw [insertImpl_fresh_eq acc v2 _ _ hes.1 hstep.1]
+      exact hm
+    · intro k hk
+      rw [A k (by simp [keys] at hk ⊢; exact Or.inl hk), lookup_append_mem _ hk]
+    · intro k hk
+      simp only [keys, List.map_cons, List.mem_cons] at hk
+      rcases hk with rfl | hk
+      · rw [A k (by simp [keys]), lookup_append_fresh _ hstep.1, h3]
+      · exact B k hk
+
+/-- The same for `Mapping::flattened`. -/
+theorem flatEs_build {ck ok : List Key} {st : RState} {tgt : List (Key × Value)} :
+    ∀ (es : List (Key × Value)) (acc : Mapping),
+    WFEs es → (keys acc.es ++ keys es).Nodup →
+    (∀ k v, (k, v) ∈ es → ∃ y, flat v st = .ok y ∧ lookup k tgt = some y) →
+    ∃ m, flatEs es ck ok st acc = .ok m ∧
+      (∀ k, k ∈ keys acc.es → lookup k m.es = lookup k acc.es) ∧
+      (∀ k, k ∈ keys es → lookup k m.es = lookup k tgt) := by
+  intro es
+  induction es with
+  | nil =>
+    intro acc _ _ _
+    exact ⟨acc, rfl, fun _ _ => rfl, fun _ hk => by simp [keys] at hk⟩
+  | cons e rest ih =>
+    obtain ⟨k0, v0⟩ := e
+    intro acc hes hnd hall
+    simp only [WFEs] at hes
+    obtain ⟨v2, h2, h3⟩ := hall k0 v0 (by simp)
+    have hstep := nodup_keys_step (by simpa [keys] using hnd : (keys acc.es ++ k0 :: keys rest).Nodup)
+    obtain ⟨m, hm, A, B⟩ := ih ⟨acc.es ++ [(k0, v2)],
+        if decide (k0 ∈ ck) then setInsert k0 acc.ck else acc.ck,
+        if decide (k0 ∈ ok) then setInsert k0 acc.ok else acc.ok⟩
+      hes.2.2 (by simpa [keys] using hstep.2)
+      (fun k v hkv => hall k v (List.mem_cons_of_mem _ hkv))
+    simp only at A
+    refine ⟨m, ?_, ?_, ?_⟩
+    · simp only [flatEs, h2]
+      rw [insertImpl_fresh_eq acc v2 _ _ hes.1 hstep.1]
+      exact hm
+    · intro k hk
+      rw [A k (by simp [keys] at hk ⊢; exact Or.inl hk), lookup_append_mem _ hk]
+    · intro k hk
+      simp only [keys, List.map_cons, List.mem_cons] at hk
+      rcases hk with rfl | hk
+      · rw [A k (by simp [keys]), lookup_append_fresh _ hstep.1, h3]
+      · exact B k hk
+
+
+/-- `flattened` of closed, well-formed data: same data up to the flag sets, still closed and
+well-formed (whatever the state). -/
+theorem flat_erase {v y : Value} {st : RState} (hc : Closed v) (hw : WF v)
+    (h : flat v st = .ok y) : erase y = erase v ∧ Closed y ∧ WF y := by
+  obtain ⟨r, hr, he⟩ := C07.flat_closed_id (st := st) hc hw
+  have : y = r := Except.ok.inj (h.symm.trans hr)
+  subst this
+  exact ⟨he, closed_of_erase_eq he hc, wf_of_erase_eq he hw⟩
+
+end Refs
+end Reclass
